@@ -892,10 +892,10 @@ func (p *Posix) fileToObjVersions(bucket string) backend.GetVersionsFunc {
 		if err == nil {
 			versionId = string(versionIdBytes)
 		}
-		if versionId == versionIdMarker {
+		if !*pastVersionIdMarker && versionId == versionIdMarker {
+			// the listing resumes after the marker version
 			*pastVersionIdMarker = true
-		}
-		if *pastVersionIdMarker {
+		} else if *pastVersionIdMarker {
 			fi, err := d.Info()
 			if errors.Is(err, fs.ErrNotExist) {
 				return nil, backend.ErrSkipObj
@@ -1035,6 +1035,15 @@ func (p *Posix) fileToObjVersions(bucket string) backend.GetVersionsFunc {
 		isNullVersionIdObjFound := nullVersionIdObj != nil || nullObjDelMarker != nil
 
 		if len(dirEnts) == 1 && (isNullVersionIdObjFound) {
+			if !*pastVersionIdMarker {
+				if versionIdMarker == nullVersionId {
+					*pastVersionIdMarker = true
+				}
+				return &backend.ObjVersionFuncResult{
+					ObjectVersions: objects,
+					DelMarkers:     delMarkers,
+				}, nil
+			}
 			if nullObjDelMarker != nil {
 				delMarkers = append(delMarkers, *nullObjDelMarker)
 			}
@@ -1079,22 +1088,30 @@ func (p *Posix) fileToObjVersions(bucket string) backend.GetVersionsFunc {
 			// by checking its creation date, then continue the adding
 			if isNullVersionIdObjFound && !isNullVersionIdObjAdded {
 				if nf.ModTime().After(f.ModTime()) {
-					if nullVersionIdObj != nil {
-						objects = append(objects, *nullVersionIdObj)
-					}
-					if nullObjDelMarker != nil {
-						delMarkers = append(delMarkers, *nullObjDelMarker)
-					}
-
 					isNullVersionIdObjAdded = true
 
-					if availableObjCount--; availableObjCount == 0 {
-						return &backend.ObjVersionFuncResult{
-							ObjectVersions:      objects,
-							DelMarkers:          delMarkers,
-							Truncated:           true,
-							NextVersionIdMarker: nullVersionId,
-						}, nil
+					if !*pastVersionIdMarker {
+						// this is the place of the null version in the
+						// listing: a null marker resumes right after it
+						if versionIdMarker == nullVersionId {
+							*pastVersionIdMarker = true
+						}
+					} else {
+						if nullVersionIdObj != nil {
+							objects = append(objects, *nullVersionIdObj)
+						}
+						if nullObjDelMarker != nil {
+							delMarkers = append(delMarkers, *nullObjDelMarker)
+						}
+
+						if availableObjCount--; availableObjCount == 0 {
+							return &backend.ObjVersionFuncResult{
+								ObjectVersions:      objects,
+								DelMarkers:          delMarkers,
+								Truncated:           true,
+								NextVersionIdMarker: nullVersionId,
+							}, nil
+						}
 					}
 				}
 			}
@@ -1164,7 +1181,11 @@ func (p *Posix) fileToObjVersions(bucket string) backend.GetVersionsFunc {
 
 		// If null versionId object is found but not yet pushed,
 		// push it after the listing, as it's the oldest object version
-		if isNullVersionIdObjFound && !isNullVersionIdObjAdded {
+		if isNullVersionIdObjFound && !isNullVersionIdObjAdded && !*pastVersionIdMarker {
+			if versionIdMarker == nullVersionId {
+				*pastVersionIdMarker = true
+			}
+		} else if isNullVersionIdObjFound && !isNullVersionIdObjAdded {
 			if nullVersionIdObj != nil {
 				objects = append(objects, *nullVersionIdObj)
 			}
